@@ -541,13 +541,45 @@ func runNATBody(mode, tier string, shard, shards int, rep *SeqReport, lastOp, cu
 			}
 		}
 	}
+	// deep start with a table of MIXED age: the range is filled, the mappings on its first and last port are
+	// refreshed, everything else expires, and the freed ports in between are given to new endpoints - the range
+	// is full again, the allocation position stands just below the top, and the ports at both ends of the range
+	// are held by old-but-live mappings
+	mixedCfgs := []natCfg{{mapping: vnet.EndpointIndependent, filtering: vnet.EndpointIndependent, lifetime: 100 * time.Millisecond}}
+	if thorough {
+		mixedCfgs = append(mixedCfgs, natCfg{mapping: vnet.EndpointIndependent, filtering: vnet.EndpointAddrPortDependent, lifetime: 100 * time.Millisecond})
+	}
+	for _, cfg := range mixedCfgs {
+		refills, md := []int{16382}, 2
+		if thorough {
+			refills, md = []int{16381, 16382}, 3
+		}
+		for _, refill := range refills {
+			if !mine() {
+				continue
+			}
+			cfg := cfg
+			var prefix []string
+			for i := 0; i < 16384; i++ {
+				prefix = append(prefix, fmt.Sprintf("O P%d X1", i))
+			}
+			prefix = append(prefix, "T half", "O P16383 X1", "O P0 X1", "T half", "T half")
+			for i := 0; i < refill; i++ {
+				prefix = append(prefix, fmt.Sprintf("O P%d X1", 16384+i))
+			}
+			alpha := []string{"O A1 X1", "O A2 X1", "O P0 X1", "I X1 E0", "I X1 EL"}
+			*curFam = fmt.Sprintf("deep-mixed %s refill=%d", cfg, refill)
+			r := bfs(fmt.Sprintf("nat-deep-mixed %s refill=%d", cfg, refill), func() seqSystem { return newNatSys(mode, cfg, alpha, lastOp) }, prefix, md, 3000, rep)
+			rep.family("port-range-deep-start-mixed-age", r.transitions)
+		}
+	}
 }
 
 func init() {
 	assume := []string{"3 internal endpoints (two sharing an IP), 4 remotes (two sharing an IP, one never contacted), lifetimes {30 s, 100 ms}",
 		"time advances only by lifetime/2-1ms and lifetime+1ms steps, so no probe lands within 1 us of an expiry instant (left unconstrained by the property)",
 		"allocation is 'some fresh endpoint': the model adopts the port the implementation chose and checks validity, ownership and uniqueness"}
-	rule := "explicit-state BFS (depth 5 quick / 7 thorough, states merged on a reflective dump of the translator + model) over {outbound i->r, inbound r->e for every external endpoint seen so far and a never-allocated one, advance half / full lifetime} for all 9 mapping x filtering behaviours x 2 lifetimes and 1:1 mode with 1..3 IP pairs, from the empty table and from deep starts with 16382/16383/16384 live (and expired) mappings; every translation result is compared with an RFC 4787 table model"
+	rule := "explicit-state BFS (depth 5 quick / 7 thorough, states merged on a reflective dump of the translator + model) over {outbound i->r, inbound r->e for every external endpoint seen so far and a never-allocated one, advance half / full lifetime} for all 9 mapping x filtering behaviours x 2 lifetimes and 1:1 mode with 1..3 IP pairs, from the empty table, from deep starts with 16382/16383/16384 live (and expired) mappings, and from a full table of mixed age (both end ports old-but-live, the middle re-allocated after expiry); every translation result is compared with an RFC 4787 table model"
 	register(&Check{ID: "C02", Seq: func(t string, k, n int, r *SeqReport) { runNAT("C02", t, k, n, r) }, Rule: rule, Assumptions: assume})
 	register(&Check{ID: "C03", Seq: func(t string, k, n int, r *SeqReport) { runNAT("C03", t, k, n, r) }, Rule: rule, Assumptions: assume})
 }
